@@ -244,6 +244,7 @@ class World:
         self.spawned_by_disposable: set[str] = set()
         self.prepared: dict[str, Any] = {}
         self.metric_objects: dict[int, Any] = {}
+        self.memory_loggers: dict[str, Any] = {}
         self.exit_snapshot: dict[str, dict[str, bool]] = {}  # block -> {task spawned into it: done() at the instant the block was left}
         self.capture = LogCapture()
         self.uid = 10_000
@@ -274,6 +275,23 @@ class World:
 
     def resolve_option(self, opt: str, value: Any) -> Any:
         if opt == "logger":
+            if value.endswith(".mem"):
+                # a Logger subclass that keeps its records and has a length (falsy while it has kept nothing)
+                capture = self.capture
+
+                class MemoryLogger(logging.Logger):
+                    def __init__(self, name: str) -> None:
+                        super().__init__(name)
+                        self.kept: list[logging.LogRecord] = []
+
+                    def __len__(self) -> int:
+                        return len(self.kept)
+
+                    def handle(self, record: logging.LogRecord) -> None:
+                        self.kept.append(record)
+                        capture.handle(record)
+
+                return self.memory_loggers.setdefault(value, MemoryLogger(value))
             return logging.getLogger(value)
         return value
 
